@@ -46,6 +46,18 @@ theorem qPrepareWrite_grant (c : Cfg) (q : Spsc.St) (n : Nat) (h1 : q.rHist.head
 /-- nothing left to read ⇒ the published reader position is the reader position -/
 def Pub (t : Th) : Prop := t.qStmts = [] → t.q.rHist.headD 0 = t.q.rpos
 
+end Backend.PB
+namespace Backend
+/-- the reads of context `i` have been committed: if nothing is left to read, the reader position has been published
+    (`rHist` is the history of published reader positions, newest first). In quill every read of a queue that
+    consumed something ends with `commit_read`; the model's `readQueue` does so on every exit except exhaustion of
+    its loop fuel, and this predicate excludes the states left behind by that exit (see `Props/C09Backend.lean`). -/
+def ReadsCommitted (s : BSt) (i : Nat) : Prop :=
+  (s.th i).qStmts = [] → (s.th i).q.rHist.headD 0 = (s.th i).q.rpos
+end Backend
+namespace Backend.PB
+open Backend
+
 /-- the fields `Pub` reads -/
 structure ThQ (t t' : Th) : Prop where
   rh : t'.q.rHist = t.q.rHist
@@ -812,6 +824,189 @@ theorem drained_state {s : BSt} (hgi : GI s) (hfi : FI none [] s) (hrun : s.back
   refine ⟨b1, ?_, b2.cfg, hall, fun i hc => ?_⟩
   · simp only [BSt.actor, hact]; exact hx
   · exact quiet_run_pub ops _ hpg hq i (hI.ctxLt a x i hx hc) hdp (hcom i hc)
+
+end PB
+end Backend
+
+namespace Backend
+namespace PB
+
+/-! ### the retried Flush request (C06 progress, caller parked on the retry) -/
+
+theorem sum_range_ite (n ci : Nat) : ((List.range n).map (fun j => if j = ci then 1 else 0)).sum = if ci < n then 1 else 0 := by
+  induction n with
+  | zero => simp
+  | succ n ih =>
+    rw [List.range_succ, List.map_append, List.sum_append, ih]
+    by_cases h1 : ci < n
+    · have : ¬ n = ci := by omega
+      simp [h1, this]; omega
+    · by_cases h2 : n = ci
+      · subst h2; simp
+      · have : ¬ ci < n + 1 := by omega
+        simp [h1, h2, this]
+
+/-- at most one record pending: all contexts empty except one that holds a single record -/
+theorem pending_le_one (s : BSt) (ci : Nat) (h : ∀ j, (chain (s.th j)).length ≤ if j = ci then 1 else 0) :
+    pendingCount s ≤ 1 := by
+  unfold pendingCount
+  have := sum_range_le s.ths.length (fun j => (chain (s.th j)).length) (fun j => if j = ci then 1 else 0) (fun j _ => h j)
+  rw [sum_range_ite] at this
+  split at this <;> omega
+
+/-- the `resume` of a caller parked on a retry performs the next attempt with the same request (on a dropping queue
+    it is a fresh call: new timestamp, same kind and size) -/
+theorem resume_retry (s : BSt) (a : Nat) (x : Actor) (st : Stmt) (k : Nat) (hx : s.actor a = some x)
+    (hp : x.pend = .retry st k) :
+    ∃ st' first, st'.kind = st.kind ∧ st'.size = st.size ∧ Backend.resume s a = Backend.enqFlow s a st' k first false := by
+  unfold Backend.resume
+  rw [hx]
+  simp only [Option.map_some, hp]
+  split
+  · exact ⟨{ st with ts := s.now }, true, rfl, rfl, rfl⟩
+  · exact ⟨st, false, rfl, rfl, rfl⟩
+
+theorem applyFront_resume (s : BSt) (a : Nat) :
+    (applyFront s (.resume a)).2 = (Backend.resume s a).2 ∧
+    ((applyFront s (.resume a)).1 = (Backend.resume s a).1 ∨
+     (applyFront s (.resume a)).1 = (Backend.resume s a).1.setActor a (fun x => { x with inCall := none })) := by
+  simp only [applyFront]
+  split
+  · exact ⟨rfl, Or.inl rfl⟩
+  · split
+    · exact ⟨rfl, Or.inl rfl⟩
+    · exact ⟨rfl, Or.inr rfl⟩
+
+theorem ensureCtx_chain {s : BSt} (h : ∀ j, chain (s.th j) = []) (a : Nat) :
+    (∀ j, chain ((Backend.ensureCtx s a).1.th j) = []) ∧ (Backend.ensureCtx s a).1.backendGone = s.backendGone ∧
+    (Backend.ensureCtx s a).1.flags = s.flags := by
+  unfold Backend.ensureCtx
+  split
+  · exact ⟨h, rfl, rfl⟩
+  · simp only
+    refine ⟨fun j => ?_, rfl, rfl⟩
+    have hth : (({ s with ths := s.ths ++ [mkTh s.cfg a], registry := s.registry ++ [s.ths.length], newFlag := true } : BSt).setActor a
+        (fun x => { x with ctx := some s.ths.length })).th j = if j = s.ths.length then mkTh s.cfg a else s.th j :=
+      th_append s _ j
+    rw [hth]; split
+    · rfl
+    · exact h j
+
+/-- the state after a granted attempt: one record pending, the rest untouched -/
+theorem enqFlow_granted_state (s : BSt) (a : Nat) (st : Stmt) (cont : Nat) (first initial : Bool)
+    (hall : ∀ j, chain (s.th j) = []) (hlt : (Backend.ensureCtx s a).2 < (Backend.ensureCtx s a).1.ths.length)
+    (hok : (Backend.tryEnq (Backend.ensureCtx s a).1 (Backend.ensureCtx s a).2 st).2 = true) :
+    pendingCount (Backend.enqFlow s a st cont first initial).1 ≤ 1 ∧
+    (Backend.enqFlow s a st cont first initial).1.backendGone = s.backendGone ∧
+    (∃ i, { st with enqAt := s.now } ∈ ((Backend.enqFlow s a st cont first initial).1.th i).accepted) := by
+  rw [enqFlow_ok s a st cont first initial hok]
+  obtain ⟨c1, c2, _⟩ := ensureCtx_chain hall a
+  have hnow : (Backend.ensureCtx s a).1.now = s.now := by
+    unfold Backend.ensureCtx; split <;> rfl
+  rcases he : Backend.ensureCtx s a with ⟨s1, ci⟩
+  rw [he] at hok c1 c2 hnow hlt
+  simp only at hok c1 c2 hnow hlt ⊢
+  have h1 : (qPrepareWrite s1.cfg (s1.th ci).q st.size).2 = true := by rw [← tryEnq_ok]; exact hok
+  have hte : (Backend.tryEnq s1 ci st).1 = s1.setTh ci (fun t => { t with
+      q := qFinishCommit s1.cfg (qPrepareWrite s1.cfg (s1.th ci).q st.size).1 st.size,
+      qStmts := t.qStmts ++ [{ st with enqAt := s1.now }], accepted := t.accepted ++ [{ st with enqAt := s1.now }] }) := by
+    unfold Backend.tryEnq; simp only [h1, if_true]
+  have hths : ∀ S : BSt, ∀ j, (Backend.afterEnq (S.setActor a (fun x => { x with pend := .none })) a st cont).1.th j = S.th j := by
+    intro S j; simp only [BSt.th, afterEnq_ths]; rfl
+  have hgone : ∀ S : BSt, (Backend.afterEnq (S.setActor a (fun x => { x with pend := .none })) a st cont).1.backendGone = S.backendGone := by
+    intro S; unfold Backend.afterEnq; split <;> rfl
+  refine ⟨?_, ?_, ?_⟩
+  · apply pending_le_one _ ci
+    intro j
+    rw [hths, hte]
+    rcases th_setTh_cases s1 ci j _ with e | ⟨rfl, _, e⟩
+    · rw [e, c1 j]; simp
+    · rw [e, if_pos rfl]
+      have := c1 j
+      unfold chain at this ⊢
+      obtain ⟨hb, hq⟩ := List.append_eq_nil_iff.mp this
+      simp [hb, hq]
+  · rw [hgone, hte]; exact c2
+  · refine ⟨ci, ?_⟩
+    rw [hths, hte, th_setTh_same s1 _ hlt, hnow]
+    exact List.mem_append_right _ (List.mem_singleton.mpr rfl)
+
+end PB
+end Backend
+
+namespace Backend
+namespace PB
+
+theorem pendOf_some {s : BSt} {a : Nat} {p : Pend} (h : pendOf s a = some p) : ∃ x, s.actor a = some x ∧ x.pend = p := by
+  unfold pendOf at h
+  cases hx : s.actor a with
+  | none => rw [hx] at h; cases h
+  | some x => rw [hx] at h; simp only [Option.map_some, Option.some.injEq] at h; exact ⟨x, rfl, h⟩
+
+/-- **`flush_log()` of a caller parked on the retry of its refused request returns.** State-level form: from `s`
+    (reachable: `GI`, `FI`), backend running, drain rule; continuation = (clock past grace, quiet polls ≥ pending),
+    `resume a`, (clock past grace, at least one quiet poll); then the flag is raised and the next `resume a` answers
+    "done". -/
+theorem flush_retry_returns {s : BSt} (hgi : GI s) (hfi : FI none [] s) (hrun : s.backendGone = false)
+    (hdp : s.cfg.qp.drainPublish = true) (a : Nat) (x : Actor) (st : Stmt) (f : Nat) (hx : s.actor a = some x)
+    (hp : x.pend = .retry st 1) (hk : st.kind = .flush f) (hsz : st.size ≤ s.cfg.qcap)
+    (hcom : ∀ i, x.ctx = some i → Pub (s.th i))
+    (dt1 : Nat) (hdt1 : s.cfg.grace ≤ dt1) (q1 : List Op) (hq1 : ∀ o ∈ q1, quietOp o = true)
+    (hn1 : pendingCount s ≤ pollCount q1)
+    (dt2 : Nat) (hdt2 : s.cfg.grace ≤ dt2) (q2 : List Op) (hq2 : ∀ o ∈ q2, quietOp o = true) (hn2 : 1 ≤ pollCount q2) :
+    pendOf (applyOp (runOps s (.front (.tick dt1) :: q1)) (.front (.resume a))).1 a = some (.flag f) ∧
+    f ∈ (runOps (applyOp (runOps s (.front (.tick dt1) :: q1)) (.front (.resume a))).1 (.front (.tick dt2) :: q2)).flags ∧
+    (applyOp (runOps (applyOp (runOps s (.front (.tick dt1) :: q1)) (.front (.resume a))).1 (.front (.tick dt2) :: q2))
+      (.front (.resume a))).2 = "done" := by
+  obtain ⟨hpgA, hxA, hcfgA, hall, hpub⟩ := drained_state hgi hfi hrun dt1 hdt1 q1 hq1 hn1 hdp a x hx hcom
+  generalize runOps s (.front (.tick dt1) :: q1) = sA at hpgA hxA hcfgA hall hpub ⊢
+  obtain ⟨fl, hI⟩ := hpgA.gi
+  obtain ⟨st', first, k1, k2, hres⟩ := resume_retry sA a x st 1 hxA hp
+  have hd : ∀ i, x.ctx = some i → (sA.th i).qStmts = [] ∧ Pub (sA.th i) := fun i hi =>
+    ⟨(List.append_eq_nil_iff.mp (hall i)).2, hpub i hi⟩
+  have hok := grant_of_drained hI a x hxA st' (by rw [k2, hcfgA]; exact hsz) hd
+  have hk' : st'.kind = .flush f := k1.trans hk
+  have hout := (flush_enq_outcome sA a st' f first false x hxA hk').1 hok
+  have hlt : (Backend.ensureCtx sA a).2 < (Backend.ensureCtx sA a).1.ths.length := by
+    obtain ⟨h1, _, _, x', hx', hc', _⟩ := hI.ensureCtx a x hxA
+    exact h1.ctxLt a x' _ hx' hc'
+  obtain ⟨g1, g2, i, g3⟩ := enqFlow_granted_state sA a st' 1 first false hall hlt hok
+  rw [← hres] at hout g1 g2 g3
+  -- the state after the `resume` operation of the schedule
+  have hgiB := hpgA.gi.applyOp (.front (.resume a))
+  have hfiB := hpgA.fi.applyOp (.front (.resume a))
+  have hcfgB : (applyOp sA (.front (.resume a))).1.cfg = sA.cfg := by
+    have := hpgA.gi.cfg_runOps [.front (.resume a)]
+    simpa [runOps] using this
+  have hB : pendOf (applyOp sA (.front (.resume a))).1 a = some (.flag f) ∧
+      pendingCount (applyOp sA (.front (.resume a))).1 ≤ 1 ∧
+      (applyOp sA (.front (.resume a))).1.backendGone = false ∧
+      { st' with enqAt := sA.now } ∈ ((applyOp sA (.front (.resume a))).1.th i).accepted := by
+    show pendOf (applyFront sA (.resume a)).1 a = _ ∧ pendingCount (applyFront sA (.resume a)).1 ≤ 1 ∧
+      (applyFront sA (.resume a)).1.backendGone = false ∧ _ ∈ ((applyFront sA (.resume a)).1.th i).accepted
+    rcases (applyFront_resume sA a).2 with e | e
+    · rw [e]; exact ⟨hout, g1, by rw [g2]; exact hpgA.run, g3⟩
+    · rw [e]
+      refine ⟨?_, g1, by show (Backend.resume sA a).1.backendGone = false; rw [g2]; exact hpgA.run, g3⟩
+      exact (pendOf_setActor_keep (Backend.resume sA a).1 a (fun x => { x with inCall := none }) (fun _ => rfl) (fun _ => rfl)
+        (fun _ => rfl) a).trans hout
+  generalize (applyOp sA (.front (.resume a))).1 = sB at hgiB hfiB hcfgB hB ⊢
+  obtain ⟨b1, b2, b3, b4⟩ := hB
+  refine ⟨b1, ?_⟩
+  have hpgB : PG (applyOp sB (.front (.tick dt2))).1 :=
+    ⟨hgiB.applyOp _, hfiB.applyOp _, ripe_after_tick hgiB dt2 (by rw [hcfgB, hcfgA]; exact hdt2), b3⟩
+  have e : runOps sB (.front (.tick dt2) :: q2) = runOps (applyOp sB (.front (.tick dt2))).1 q2 := by simp [runOps]
+  rw [e]
+  have hn : pendingCount (applyOp sB (.front (.tick dt2))).1 ≤ pollCount q2 := Nat.le_trans b2 hn2
+  have hf := quiet_run_drains hpgB q2 hq2 hn i { st' with enqAt := sA.now } f b4 hk'
+  refine ⟨hf, ?_⟩
+  obtain ⟨xB, hxB, hpB⟩ := pendOf_some b1
+  have hact : (runOps (applyOp sB (.front (.tick dt2))).1 q2).actors = sB.actors := quiet_run_actors q2 _ hpgB hq2
+  have hxC : (runOps (applyOp sB (.front (.tick dt2))).1 q2).actor a = some xB := by
+    simp only [BSt.actor, hact]; exact hxB
+  show (applyFront _ (.resume a)).2 = "done"
+  rw [(applyFront_resume _ a).1]
+  exact ((resume_flag _ a xB f hxC hpB).1 hf).2
 
 end PB
 end Backend
